@@ -163,8 +163,17 @@ inline std::optional<Violation> &pending() { static std::optional<Violation> p; 
 inline void note(const std::string &prop, const std::string &sig, const std::string &msg) {
 	if(!pending()) pending() = Violation{prop, sig, msg};
 }
+// The property this process is checking (VERIF_PROP); empty = all.
+inline const std::string &wanted_prop() { static std::string w = getenv("VERIF_PROP") ? getenv("VERIF_PROP") : ""; return w; }
+// Violations of OTHER properties noted during an operation must not hide the oracles of the property
+// being checked (they are reported by that other property's own check): they are collected here.
+inline std::vector<Violation> &side_violations() { static std::vector<Violation> v; return v; }
 inline void raise_pending() {
-	if(pending()) { Violation v = *pending(); pending().reset(); throw v; }
+	if(pending()) {
+		Violation v = *pending(); pending().reset();
+		if(!wanted_prop().empty() && !v.prop.empty() && v.prop != wanted_prop()) { if(side_violations().size() < 64) side_violations().push_back(v); return; }
+		throw v;
+	}
 }
 
 
